@@ -10,7 +10,10 @@ use core::{convert::TryFrom, marker::PhantomData};
 use tinyvec::ArrayVec;
 
 use crate::{
-    constants::{MAX_HSS_PUBLIC_KEY_LENGTH, REF_IMPL_MAX_PRIVATE_KEY_SIZE},
+    constants::{
+        lms_public_key_length, lms_signature_length, MAX_HSS_PUBLIC_KEY_LENGTH,
+        REF_IMPL_MAX_PRIVATE_KEY_SIZE,
+    },
     hss::{aux::hss_is_aux_data_used, reference_impl_private_key::Seed},
     signature::{Error, SignerMut, Verifier},
     HashChain, Signature, VerifierSignature,
@@ -211,6 +214,22 @@ fn hss_sign_core<H: HashChain>(
         .compressed_parameter
         .to::<H>()
         .map_err(|_| Error::new())?;
+
+    // The signature is returned in tinyvec storage, which cannot hold more than u16::MAX bytes
+    // (8 levels of W1 with a 32 byte hash would need 69868). Refuse before a leaf is consumed.
+    let signature_length = parameters.iter().fold(4, |length, parameter| {
+        length
+            + lms_signature_length(
+                H::OUTPUT_SIZE as usize,
+                parameter.get_lmots_parameter().get_num_winternitz_chains() as usize,
+                parameter.get_lms_parameter().get_tree_height() as usize,
+            )
+            + lms_public_key_length(H::OUTPUT_SIZE as usize)
+    }) - lms_public_key_length(H::OUTPUT_SIZE as usize);
+    if signature_length > u16::MAX as usize {
+        return Err(Error::new());
+    }
+
     let mut expanded_aux_data = HssPrivateKey::get_expanded_aux_data(
         aux_data,
         &rfc_private_key,
